@@ -60,8 +60,8 @@ def int_emulation_failures(pname, xs, others):
             bad.append((x, "int", repr(_try(int, v))))
         if _try(hash, v) != ("ok", hash(x)):
             bad.append((x, "hash", ""))
-        if not (v == x) or (v != x):
-            bad.append((x, "eq", ""))
+        if _try(lambda: (v == x, v != x)) != ("ok", (True, False)):
+            bad.append((x, "eq", repr(_try(lambda: (v == x, v != x)))))
         if _try(operator.index, v) != ("ok", x):
             bad.append((x, "index", ""))
         for y in others:
